@@ -38,6 +38,8 @@ DOCS = [
     ('lxml', '<a xmlns:p="urn:c05:p"><p:b/><c><b>x</b></c></a>'),
     ('lxml', '<r><b/><b/><b/><b/><b/></r>'),
     ('et', '<a/>'),
+    ('et', '<a><b>1</b>t1<b>2</b>t2<c/>t3</a>'),
+    ('lxml', '<a><b>x</b>tail<!--c--><?pi y?><b/>end</a>'),
 ]
 
 
@@ -981,6 +983,9 @@ CACHE_EXPRS = [
     "string-join((for $i in 1 to $v return 'x'), '')", "map:merge((map{1:$v}, map{2:count(//b)}))(2)",
     "map:put(map{1:$v}, 2, 5)(1)", "sort((3,1,$v))", "$v ! (. + 1)", "let $x := $v return function(){$x}()",
     "count(/*/*) + $v", "(//b)[$v]/name()", "some $x in //b satisfies count($x/preceding-sibling::*) = $v",
+    # fn:serialize works on a tail-less COPY of each element (reviewedCopyWrites): the caller's tree keeps its tails
+    "serialize(/*/b[1])", "(serialize(/*/b), /*/b ! serialize(.), serialize(/*/*[last()]))", "serialize(/*, map{'method': 'xml'})",
+    "string-join(/*/node() ! serialize(.), '|')", "serialize((/*/b)[$v])",
     # variables looked up by prefixed / expanded name (VariableToken.evaluate, second lookup)
     "$p:w + $v", "let $p:w := $v return ($p:w, $v)", "for $p:w in (1, 2) return $p:w + $v", "$Q{urn:c05:p}w + $v",
     # named function references: the item carries the focus / root of the evaluation that built it
@@ -1039,7 +1044,13 @@ def _local(e):
 
 
 def _sv(e):
-    return ''.join(e.itertext())
+    """XPath string value of an element: its descendant text nodes (comments and PIs contribute only their tails)"""
+    out = [e.text or '']
+    for c in e:
+        if isinstance(c.tag, str):
+            out.append(_sv(c))
+        out.append(c.tail or '')
+    return ''.join(out)
 
 
 # expressions whose value is ALSO computed here from the ElementTree / lxml tree itself (an oracle that does not run
@@ -1200,7 +1211,7 @@ def translate(run: Run) -> dict:
     new_tree = []
     for w in info['tree']:
         kind, f, fn, _ = w
-        ok = (fn in builders if kind == 'element' else f in ('elementpath/tree_builders.py', 'elementpath/xpath_nodes.py')
+        ok = ((fn in builders or w in quads) if kind == 'element' else f in ('elementpath/tree_builders.py', 'elementpath/xpath_nodes.py')
               if kind == 'xnode' else w in quads if kind in ('namespaces', 'variables') else False)
         if not ok:
             new_tree.append(w)
